@@ -22,6 +22,7 @@ QUICK = [
     ("S4r", HOLD_DESC, 1, "DEL"),
     ("S2", HOLD_DESC, 2, "DELCORE"),
     ("S1", DROP_ASC, 2, "DEL"),
+    ("S1", DROP_ASC, 2, "PGDEL"),
 ]
 THOROUGH = [
     ("S7", DROP_ASC, 2, "DELCORE"),
@@ -34,6 +35,8 @@ THOROUGH = [
     ("S2", HOLD_DESC, 2, "DEL"),
     ("S2", DROP_ASC, 3, "DELCORE"),
     ("S1", DROP_ASC, 3, "DEL"),
+    ("S1", DROP_ASC, 3, "PGDEL"),
+    ("S4", HOLD_DESC, 2, "PGDEL"),
     ("S2r", DROP_DESC, 2, "DEL"),
     ("S1", HOLD_ASC, 2, "FULL"),
     ("S2", GC_DROP, 2, "GCOPS"),
